@@ -151,7 +151,7 @@ def serializer_obligations(ctx, facts, rule=None, scope="all"):
         if c[0] == "next":
             return "next"
         if c[0] in ("any", "all") and ".1" in str(c[1]):
-            cs = boolsum.charset(boolsum.subst_formula(summ.summary(c[2]), {2: boolsum.CPARAM}), facts)
+            cs = boolsum.charset(boolsum.pred_formula(facts, summ, c[2]), facts)
             if c[0] == "any" and c[3] is False and (boolsum.universe() & ~cs) == HEX:
                 return "allhex"
             if c[0] == "all" and c[3] is True and cs == HEX:
